@@ -249,6 +249,27 @@ def run():
         for a, b in zip(got[1::2], got[2::2]):
             if a != b:
                 mismatches.append(f'merge-interpreter neighbors differs from CPython: {a} vs {b}')
+    # control flow of the merge-interpreter (guarded break / continue / return) vs CPython on small domains
+    from checks import mi_cases
+    core.set_width(12)
+    minterp.LOOP_BOUNDS[('f_continue', 0)] = lambda fr: fr.lookup('n')
+    minterp.LOOP_BOUNDS[('f_break', 0)] = lambda fr: fr.lookup('n')
+    for fn, n in mi_cases.CASES + [(mi_cases.f_for, None)]:
+        def body():
+            cx = core.ctx()
+            xv = z3.BitVec('x', core.W)
+            cx.assume(xv >= 0, xv < 64)
+            arg = [0, 1, 3, 4] if n is None else n
+            got = minterp.call(fn, core.SymInt(xv), arg)
+            bad = []
+            for v in range(64):
+                want = fn(v, arg)
+                if cx.check_fresh(xv == v, core._bv(got) != want):
+                    bad.append((v, want))
+            return bad, cx.failed_obligations()
+        for (bad, errs), cx, st in core.explore(body):
+            if bad or errs:
+                mismatches.append(f'merge-interpreter control flow {fn.__name__}: wrong for inputs {bad[:4]} obligations {errs[:2]}')
     return mismatches
 
 
